@@ -447,7 +447,7 @@ Proof.
     + simpl. intros m d Hlt Hd. destruct (Nat.eq_dec m j2) as [->|Hne].
       * rewrite Hj2 in Hd. inversion Hd; subst. exact Hpc.
       * apply (Hf m d); simpl; auto; lia.
-    + constructor; auto. split; simpl; auto. f_equal. apply Hres; auto.
+    + constructor; auto. split; simpl; auto.
 Qed.
 
 (* ---- group C: the history of plain accesses *)
@@ -492,7 +492,7 @@ Proof.
     - intros k H. rewrite Hc in H. destruct (Hwr k H) as (t' & Ht'). exists t'. right; auto.
     - simpl. split; [apply Hwr; right; auto|auto]. }
   destruct HS as [k0 Hp E|k0 Hp E|k0 Hp|k0 Hp E|k0 Hp E|k0 Hp E|k0 Hp E|k0 Hp E|k0 Hp|k0 j0 Hp E|k0 v Hp|k0 Hp|k0 Hp|k0 Hp E0
-                 |k0 Hp E|k0 Hp E|k0 Hp E|k0 Hp E|k0 Hp];
+                 |k0 Hp E|k0 Hp E|k0 Hp E|k0 Hp E|k0 Hp|k0 j0 d0 Hp E|k0 k1 j1 st1 Hp E];
     try (apply Hgen;
             [ intros k; specialize (Hst k); match goal with |- context [set_nth t ?th' _] => specialize (Hst th') end;
               pose proof (start_cur_neutral (rest th) k) as (_ & _ & _ & _ & Hs5);
@@ -533,30 +533,55 @@ Proof.
       * simpl in Hst. destruct H; [left; lia|right; auto].
   - apply Hread with (k0 := k0); auto; intros; apply (start_cur_neutral (rest th)).
   - apply Hread with (k0 := k0); auto; intros; apply (start_cur_neutral (rest th)).
+  - apply Hread with (k0 := k0); auto.
 Qed.
 
 (* ---- group D: each thread executes its program, call by call *)
 Definition cur (p : cpc) : list call :=
   match p with
   | Idle => []
-  | DLoad k | DLoadOrStore k | DLoad1 k | DLock k | DLoad2 k | DCall k | DInF k | DWrite k _ | DStore k
+  | DLoad k | DLoadOrStore k | DLoad1 k | DLock k | DLoad2 k | DCall k | DInF k _ | DWrite k _ | DStore k
   | DUnlock k | DRead k => [CDo k]
   | GLoad k | GLoad1 k | GRead k => [CGet k]
   end.
-Definition calls_of (th : thr) : list call := rev (map fst (rets th)) ++ cur (tpc th) ++ rest th.
+(* the top-level call in progress: that of the bottom frame when f has nested calls running *)
+Fixpoint bottom (st : list (nat * nat)) : option nat :=
+  match st with
+  | [] => None
+  | (k, _) :: r => match bottom r with Some k' => Some k' | None => Some k end
+  end.
+Definition curtop (th : thr) : list call :=
+  match bottom (stack th) with Some k => [CDo k] | None => cur (tpc th) end.
+Definition calls_of (th : thr) : list call := rev (map fst (rets th)) ++ curtop th ++ rest th.
 
 Lemma start_cur l : cur (fst (start l)) ++ snd (start l) = l.
 Proof. destruct l as [|[] r]; reflexivity. Qed.
 
-Lemma step_calls s t th s' : nth_error (thrs s) t = Some th -> stepC s t th s' ->
+Lemma bottom_nil st : bottom st = None -> st = [].
+Proof. destruct st as [|[k j] r]; auto. simpl. destruct (bottom r); discriminate. Qed.
+
+Lemma step_calls s t th s' : thr_chain th -> nth_error (thrs s) t = Some th -> stepC s t th s' ->
   map calls_of (thrs s') = map calls_of (thrs s).
 Proof.
-  intros Hnth HS.
+  intros Hch Hnth HS.
   assert (Hsame : forall th', calls_of th' = calls_of th -> map calls_of (set_nth t th' (thrs s)) = map calls_of (thrs s)).
   { intros th' He. rewrite map_set_nth, He. apply set_nth_same. rewrite nth_error_map, Hnth. reflexivity. }
-  destruct HS; cbn [thrs]; apply Hsame; unfold calls_of; cbn [goto ret tpc rest rets map rev fst];
-    try (rewrite H; reflexivity);
-    rewrite H; cbn [cur]; rewrite <- !app_assoc; cbn [app]; rewrite start_cur; reflexivity.
+  assert (Hgoto : forall p, cur p = cur (tpc th) -> calls_of (goto th p) = calls_of th).
+  { intros p Hc. unfold calls_of, curtop; cbn [goto tpc stack rest rets]. rewrite Hc. reflexivity. }
+  assert (Hret : forall c v, stack th = [] -> cur (tpc th) = [c] -> calls_of (ret th c v) = calls_of th).
+  { intros c v Hs Hc. unfold calls_of, curtop; cbn [ret tpc stack rest rets map rev fst]. rewrite Hs, Hc. simpl.
+    rewrite <- !app_assoc. cbn [app]. rewrite start_cur. reflexivity. }
+  assert (Hget : in_get (tpc th) = true -> stack th = []).
+  { intros Hg. unfold thr_chain in Hch. destruct (tpc th); simpl in *; auto; discriminate. }
+  destruct HS; cbn [thrs]; apply Hsame;
+    try (apply Hgoto; rewrite H; reflexivity);
+    try (apply Hret; [auto; apply Hget; rewrite H; reflexivity|rewrite H; reflexivity]).
+  - (* push *)
+    unfold calls_of, curtop; cbn [push tpc stack rest rets bottom]. rewrite H. cbn [cur].
+    destruct (bottom (stack th)); reflexivity.
+  - (* pop *)
+    unfold calls_of, curtop; cbn [tpc stack rest rets]. rewrite H0. cbn [bottom cur].
+    destruct (bottom st); reflexivity.
 Qed.
 
 Lemma init_calls : map calls_of (thrs init) = progs.
@@ -572,7 +597,7 @@ Proof.
   - split; [|split; [|split]]; [apply init_InvA|apply init_InvB|apply init_InvP|apply init_calls].
   - apply cstep_inv in Hs as (th & Hnth & HS).
     split; [|split; [|split]]; [eapply step_InvA|eapply step_InvB|eapply step_InvP|]; eauto.
-    rewrite (step_calls _ _ _ _ Hnth HS); auto.
+    rewrite (step_calls _ _ _ _ (t_chain _ _ (Forall_nth_error _ _ _ _ (b_thr _ HB) Hnth)) Hnth HS); auto.
 Qed.
 
 (* ---- group E: a finished thread has no calls left *)
@@ -689,7 +714,10 @@ Proof.
   unfold all_idle in Hidle. rewrite forallb_forall in Hidle. specialize (Hidle _ Hth).
   unfold is_idle in Hidle. destruct (tpc th) eqn:Ep; try discriminate.
   rewrite Forall_forall in HE. pose proof (HE _ Hth Ep) as Hrest.
-  unfold calls_of in Hk. rewrite Ep, Hrest in Hk. simpl in Hk. rewrite app_nil_r in Hk.
+  assert (Hst : stack th = []).
+  { pose proof (t_chain _ _ (proj1 (Forall_forall _ _) (b_thr _ HB) _ Hth)) as Hc.
+    unfold thr_chain in Hc. rewrite Ep in Hc. exact Hc. }
+  unfold calls_of, curtop in Hk. rewrite Hst, Ep, Hrest in Hk. simpl in Hk. rewrite app_nil_r in Hk.
   apply in_rev in Hk. apply in_map_iff in Hk as ([c v] & Hc & Hin). simpl in Hc; subst c.
   apply In_nth_error in Hth as [t Ht].
   destruct (do_returns_f_value s t th k v Hr Ht Hin) as (_ & ? & ? & ?). auto.
@@ -700,10 +728,11 @@ Lemma step_some s t th : nth_error (thrs s) t = Some th -> tpc th <> Idle ->
   (forall k, tpc th = DLock k -> locked (ents s k) = false) -> exists s', cstep s t = Some s'.
 Proof.
   intros Hn Hi Hl. unfold ParNest.cstep. rewrite Hn.
-  destruct (tpc th) eqn:Ep; try congruence; eauto.
-  - rewrite (Hl k eq_refl). eauto.
-  - destruct (present (ents s k)); eauto.
-  - destruct (isd (ents s k)); eauto.
+  destruct (tpc th) eqn:Ep; try congruence; eauto;
+    try (rewrite (Hl k eq_refl); eauto; fail);
+    try (destruct (nth_error (deps k) j); eauto; fail);
+    try (destruct (present (ents s k)); eauto; fail);
+    try (destruct (isd (ents s k)); eauto; fail).
 Qed.
 
 Lemma forallb_false {A} (f : A -> bool) l : forallb f l = false -> exists x, In x l /\ f x = false.
@@ -714,50 +743,8 @@ Proof.
   - exists a; auto.
 Qed.
 
-(* no deadlock: unless every thread has finished its program, some thread has a step (a thread
-   blocked in Lock implies a holder, and the holder is never blocked) *)
-Theorem cache_no_deadlock s : creachable s -> all_idle s = true \/ exists t s', cstep s t = Some s'.
-Proof.
-  intros Hr. destruct (creachable_inv s Hr) as (HA & _).
-  destruct (all_idle s) eqn:Ei; auto. right.
-  apply forallb_false in Ei as (th & Hth & Hni). apply In_nth_error in Hth as [t Ht].
-  assert (Hnot : tpc th <> Idle) by (unfold is_idle in Hni; destruct (tpc th); congruence).
-  destruct (tpc th) eqn:Ep; try (exists t; apply (step_some s t th Ht); rewrite Ep; congruence).
-  (* th waits for the mutex of k *)
-  destruct (locked (ents s k)) eqn:El.
-  - pose proof (a_lock _ HA k) as Hl. rewrite El in Hl. simpl in Hl.
-    destruct (cntg_exists (fun th => holds k (tpc th)) (thrs s)) as (t2 & th2 & Ht2 & Hh); [unfold C in Hl; lia|].
-    exists t2. apply (step_some s t2 th2 Ht2); destruct (tpc th2); simpl in Hh; congruence.
-  - exists t. apply (step_some s t th Ht); rewrite Ep; [congruence|]. intros k' Hk'; inversion Hk'; subst; auto.
-Qed.
-
-Lemma tweight_ret th c v : 2 <= rank (tpc th) -> tweight (ret th c v) < tweight th.
-Proof.
-  unfold tweight, ret; simpl. destruct (rest th) as [|[] r]; simpl; lia.
-Qed.
-
-(* every step consumes the measure: no schedule is infinite (f_k is assumed to return: its
-   return step is always enabled) *)
-Theorem psi_decreases s t s' : cstep s t = Some s' -> psi s' < psi s.
-Proof.
-  intros Hs. apply cstep_inv in Hs as (th & Hn & HS). unfold psi.
-  assert (Hgen : forall th', tweight th' < tweight th ->
-            list_sum (map tweight (set_nth t th' (thrs s))) < list_sum (map tweight (thrs s))).
-  { intros th' Hlt. pose proof (sum_set_nth tweight t th' th _ Hn). lia. }
-  destruct HS; cbn [thrs]; apply Hgen; try (apply tweight_ret; rewrite H; simpl; lia);
-    unfold tweight; cbn [goto tpc rest]; rewrite H; simpl; lia.
-Qed.
-
 Lemma crun_cons t sch s : crun (t :: sch) s = match cstep s t with Some s' => crun sch s' | None => None end.
 Proof. reflexivity. Qed.
-
-Theorem cache_terminates sch : forall s s', crun sch s = Some s' -> length sch + psi s' <= psi s.
-Proof.
-  induction sch as [|t sch IH]; intros s s' H; [|rewrite crun_cons in H].
-  - inversion H; subst; simpl; lia.
-  - destruct (cstep s t) as [s1|] eqn:E; [|discriminate].
-    pose proof (psi_decreases _ _ _ E). specialize (IH _ _ H). simpl. lia.
-Qed.
 
 Lemma crun_reachable sch : forall s s', creachable s -> crun sch s = Some s' -> creachable s'.
 Proof.
@@ -766,17 +753,162 @@ Proof.
   - destruct (cstep s t) as [s1|] eqn:E; [|discriminate]. eapply IH; [|exact H]. eapply creach_step; eauto.
 Qed.
 
-(* every Do terminates: from any reachable state some continuation of at most psi(s) steps ends
-   with all programs finished *)
-Theorem cache_can_finish s : creachable s ->
-  exists sch s', crun sch s = Some s' /\ all_idle s' = true /\ length sch <= psi s.
+(* ---- progress and termination need the dependency relation between keys to be acyclic:
+   a level function that strictly decreases along [deps] *)
+Section Acyclic.
+Variable L : nat -> nat.
+Hypothesis L_dec : forall k d, In d (deps k) -> L d < L k.
+
+Lemma chain_levels cur st : chain_ok cur st -> Forall (fun f : nat * nat => L cur < L (fst f)) st.
 Proof.
-  remember (psi s) as m eqn:Em. revert s Em.
+  revert cur; induction st as [|[k j] r IH]; intros cur H; [constructor|].
+  destruct H as [(j0 & -> & Hn) Hr]. apply nth_error_In in Hn. pose proof (L_dec _ _ Hn) as Hlt.
+  constructor; [exact Hlt|]. eapply Forall_impl; [|apply (IH k Hr)]. simpl; intros; lia.
+Qed.
+
+Lemma fr_frame k th : 0 < fr k th -> exists j, In (k, j) (stack th).
+Proof.
+  intros H. unfold fr in H. apply cntg_exists in H as (i & [k' j] & Hi & Hk). simpl in Hk.
+  apply Nat.eqb_eq in Hk; subst. exists j. eapply nth_error_In; eauto.
+Qed.
+
+(* a thread waiting for e.mu of k: the holder is running, or itself waits for a key of lower level *)
+Lemma blocked_progress s : InvA s -> InvB s -> forall m t th k, nth_error (thrs s) t = Some th ->
+  tpc th = DLock k -> L k <= m -> exists t' s', cstep s t' = Some s'.
+Proof.
+  intros HA HB. induction m as [|m IH]; intros t th k Ht Hp Hl.
+  all: destruct (locked (ents s k)) eqn:El;
+    [|exists t; apply (step_some s t th Ht); rewrite Hp; [congruence|]; intros k' Hk'; inversion Hk'; subst; auto].
+  all: pose proof (a_lock _ HA k) as Hlk; rewrite El in Hlk; simpl in Hlk.
+  all: destruct (C (holds k) (thrs s)) eqn:Eh;
+    [|destruct (cntg_exists (fun th => holds k (tpc th)) (thrs s)) as (t2 & th2 & Ht2 & Hh); [unfold C in Eh; lia|];
+      exists t2; apply (step_some s t2 th2 Ht2); destruct (tpc th2); simpl in Hh; congruence].
+  all: destruct (F_exists k (thrs s)) as (t2 & th2 & Ht2 & Hf); [lia|].
+  all: apply fr_frame in Hf as (j & Hj).
+  all: pose proof (t_chain _ _ (Forall_nth_error _ _ _ _ (b_thr _ HB) Ht2)) as Hc; unfold thr_chain in Hc.
+  all: destruct (dokey (tpc th2)) as [c|] eqn:Ek; [|rewrite Hc in Hj; destruct Hj].
+  all: pose proof (chain_levels _ _ Hc) as Hlv; rewrite Forall_forall in Hlv; specialize (Hlv _ Hj); simpl in Hlv.
+  - lia.
+  - destruct (tpc th2) eqn:Ep2; simpl in Ek; try discriminate; inversion Ek; subst;
+      try (exists t2; apply (step_some s t2 th2 Ht2); rewrite Ep2; congruence).
+    apply (IH t2 th2 c Ht2 Ep2). lia.
+Qed.
+
+(* no deadlock: unless every thread has finished its program, some thread has a step *)
+Theorem cache_no_deadlock s : creachable s -> all_idle s = true \/ exists t s', cstep s t = Some s'.
+Proof.
+  intros Hr. destruct (creachable_inv s Hr) as (HA & HB & _).
+  destruct (all_idle s) eqn:Ei; auto. right.
+  apply forallb_false in Ei as (th & Hth & Hni). apply In_nth_error in Hth as [t Ht].
+  assert (Hnot : tpc th <> Idle) by (unfold is_idle in Hni; destruct (tpc th); congruence).
+  destruct (tpc th) eqn:Ep; try (exists t; apply (step_some s t th Ht); rewrite Ep; congruence).
+  eapply blocked_progress; eauto.
+Qed.
+
+(* the cost of one Do(k), nested calls included: defined by recursion on the level *)
+Fixpoint cost (fuel : nat) (k : nat) : nat :=
+  match fuel with
+  | 0 => 13
+  | S f => 13 + list_sum (map (fun d => S (cost f d)) (deps k))
+  end.
+Definition kcL (k : nat) : nat := cost (L k) k.
+
+Lemma cost_stable f : forall f' k, L k <= f -> L k <= f' -> cost f k = cost f' k.
+Proof.
+  induction f as [|f IH]; intros f' k H1 H2.
+  - assert (Hd : deps k = []) by (destruct (deps k) as [|d r] eqn:E; auto; pose proof (L_dec k d); rewrite E in *; simpl in *; lia).
+    destruct f'; cbn [cost]; rewrite ?Hd; reflexivity.
+  - destruct f' as [|f'].
+    + assert (Hd : deps k = []) by (destruct (deps k) as [|d r] eqn:E; auto; pose proof (L_dec k d); rewrite E in *; simpl in *; lia).
+      cbn [cost]; rewrite Hd; reflexivity.
+    + cbn [cost]. f_equal. f_equal. apply map_ext_in. intros d Hd. f_equal. pose proof (L_dec _ _ Hd). apply IH; lia.
+Qed.
+
+Lemma kcL_ok k : 13 + nested deps kcL k 0 <= kcL k.
+Proof.
+  unfold nested, kcL. simpl skipn. destruct (L k) as [|f] eqn:E.
+  - assert (Hd : deps k = []) by (destruct (deps k) as [|d r] eqn:E'; auto; pose proof (L_dec k d); rewrite E' in *; simpl in *; lia).
+    rewrite Hd. cbn [cost map list_sum fold_right]. lia.
+  - cbn [cost]. apply Nat.add_le_mono_l. apply Nat.eq_le_incl. f_equal. apply map_ext_in. intros d Hd. f_equal.
+    pose proof (L_dec _ _ Hd). apply cost_stable; lia.
+Qed.
+End Acyclic.
+
+(* ---- the measure decreases, for any cost function that dominates its own recursive equation *)
+Section Measure.
+Variable kc : nat -> nat.
+Hypothesis kc_ok : forall k, 13 + nested deps kc k 0 <= kc k.
+
+Notation psi := (psi deps kc).
+Notation tweight := (tweight deps kc).
+Notation rank := (rank deps kc).
+Notation nested := (nested deps kc).
+
+Lemma nested_step k j d : nth_error (deps k) j = Some d -> nested k j = S (kc d) + nested k (S j).
+Proof.
+  unfold ParNest.nested. intros H.
+  assert (Hs : skipn j (deps k) = d :: skipn (S j) (deps k)).
+  { revert j H. generalize (deps k). induction l as [|a l IH]; intros [|j] H; simpl in *; try discriminate.
+    - inversion H; reflexivity.
+    - apply IH; auto. }
+  rewrite Hs. reflexivity.
+Qed.
+
+Lemma rank_start_lt l : forall c r, l = c :: r -> rank (fst (start l)) < call_cost kc c.
+Proof.
+  intros c r ->. destruct c as [k|k]; simpl; [pose proof (kc_ok k); lia|lia].
+Qed.
+
+Lemma tweight_ret th c v : 2 <= rank (tpc th) -> tweight (ret th c v) < tweight th.
+Proof.
+  unfold ParNest.tweight, ret; cbn [tpc stack rest]. intros H.
+  destruct (rest th) as [|c0 r] eqn:E.
+  - simpl. lia.
+  - pose proof (rank_start_lt (c0 :: r) c0 r eq_refl) as Hlt.
+    assert (Hsnd : snd (start (c0 :: r)) = r) by (destruct c0; reflexivity).
+    rewrite Hsnd. cbn [map list_sum fold_right] in *. lia.
+Qed.
+
+(* every step consumes the measure: no schedule is infinite (f_k is assumed to return once its
+   nested calls have returned: its return step is always enabled) *)
+Theorem psi_decreases s t s' : cstep s t = Some s' -> psi s' < psi s.
+Proof.
+  intros Hs. apply cstep_inv in Hs as (th & Hn & HS). unfold ParNest.psi.
+  assert (Hgen : forall th', tweight th' < tweight th ->
+            list_sum (map tweight (set_nth t th' (thrs s))) < list_sum (map tweight (thrs s))).
+  { intros th' Hlt. pose proof (sum_set_nth tweight t th' th _ Hn). lia. }
+  destruct HS as [k0 Hp E|k0 Hp E|k0 Hp|k0 Hp E|k0 Hp E|k0 Hp E|k0 Hp E|k0 Hp E|k0 Hp|k0 j0 Hp E|k0 v Hp|k0 Hp|k0 Hp|k0 Hp E0
+                 |k0 Hp E|k0 Hp E|k0 Hp E|k0 Hp E|k0 Hp|k0 j0 d0 Hp E|k0 k1 j1 st1 Hp E];
+    cbn [thrs]; apply Hgen;
+    try (apply tweight_ret; rewrite Hp; simpl; lia);
+    unfold ParNest.tweight; cbn [goto push tpc stack rest]; rewrite Hp; cbn [ParNest.rank].
+  all: try lia.
+  - (* nested call *)
+    rewrite (nested_step _ _ _ E). cbn [map list_sum fold_right frame_cost fst snd]. pose proof (kc_ok d0). lia.
+  - (* nested return *)
+    rewrite E. cbn [map list_sum fold_right frame_cost fst snd]. lia.
+Qed.
+
+Theorem cache_terminates sch : forall s s', crun sch s = Some s' -> length sch + psi s' <= psi s.
+Proof.
+  induction sch as [|t sch IH]; intros s s' H; [|rewrite crun_cons in H].
+  - inversion H; subst; simpl; lia.
+  - destruct (cstep s t) as [s1|] eqn:E; [|discriminate].
+    pose proof (psi_decreases _ _ _ E). specialize (IH _ _ H). simpl. lia.
+Qed.
+End Measure.
+
+(* every Do terminates when the dependencies are acyclic: from any reachable state some continuation
+   of at most psi(s) steps ends with all programs finished *)
+Theorem cache_can_finish L : (forall k d, In d (deps k) -> L d < L k) -> forall s, creachable s ->
+  exists sch s', crun sch s = Some s' /\ all_idle s' = true /\ length sch <= psi deps (kcL L) s.
+Proof.
+  intros HL s. remember (psi deps (kcL L) s) as m eqn:Em. revert s Em.
   induction m as [m IH] using lt_wf_ind. intros s Em Hr.
-  destruct (cache_no_deadlock s Hr) as [Hd|(t & s1 & Hs)].
+  destruct (cache_no_deadlock L HL s Hr) as [Hd|(t & s1 & Hs)].
   - exists [], s; simpl; repeat split; auto; lia.
-  - pose proof (psi_decreases _ _ _ Hs) as Hlt.
-    destruct (IH (psi s1)) with (s := s1) as (sch & s' & Hrun & Hd & Hlen); auto; [lia|eapply creach_step; eauto|].
+  - pose proof (psi_decreases (kcL L) (kcL_ok L HL) _ _ _ Hs) as Hlt.
+    destruct (IH (psi deps (kcL L) s1)) with (s := s1) as (sch & s' & Hrun & Hd & Hlen); auto; [lia|eapply creach_step; eauto|].
     exists (t :: sch), s'. rewrite crun_cons, Hs. repeat split; auto. simpl; lia.
 Qed.
 
